@@ -84,11 +84,24 @@ def minmax_provenance(ctx, crate, clause_outer, clause_inner):
     R, D = param("cone_radius"), param("distance")
     tshs = {ev.ret: ev.args[0] for ev in e.events.values() if ev.callee == TSHS}
     mx = ret[3][fidx["max"]]; mn = ret[3][fidx["min"]]
-    okmax = tshs.get(mx) in (('op', 'add', 'f64', R, D), ('op', 'add', 'f64', D, R))
+    sums = (('op', 'add', 'f64', R, D), ('op', 'add', 'f64', D, R))
+    arg = tshs.get(mx)
+    PI_BITS = 0x400921FB54442D18
+    clamped = arg is not None and arg[0] == 'call' and arg[1].endswith("::min") and len(arg[2]) == 2 and \
+        ((arg[2][0] in sums and arg[2][1] == C('f64', PI_BITS)) or (arg[2][1] in sums and arg[2][0] == C('f64', PI_BITS)))
+    okmax = arg in sums or clamped
     ctx.report(clause_outer, MINMAX + ":max=f(radius+distance)", okmax, "MinMax.max = to_squared_half_segment(%s)" % show(tshs.get(mx, mx)), at=b.span, kind="N",
                sample={"max": show(tshs.get(mx, mx)), "min_alternatives": [show(tshs.get(o, o)) for o in e.phi_ops.get(mn, [mn])]})
+    # f(x) = sin^2(x/2) is increasing only on [0, pi]: for radius + distance > pi an unclamped
+    # argument makes the OUTER threshold shrink, and cells near the antipode are discarded
+    ctx.report(clause_outer, MINMAX + ":outer-argument-clamped-at-pi", clamped,
+               "the argument of the outer threshold is min(radius + distance, PI)" if clamped else
+               "the outer threshold is to_squared_half_segment(radius + distance) without a clamp at PI: for radius in (PI - distance, PI) it decreases with the radius (sin^2(x/2) is not monotone past PI) and cells inside the cone are dropped", at=b.span, kind="N")
     alts = e.phi_ops.get(mn, {mn})
-    ok_alts = all((o == C('f64', 0)) or tshs.get(o) == ('op', 'sub', 'f64', R, D) for o in alts) and any(tshs.get(o) == ('op', 'sub', 'f64', R, D) for o in alts)
+    from rules.common import cval as _cv
+    consts = [o for o in alts if o[0] == 'c']
+    ok_alts = all((o[0] == 'c') or tshs.get(o) == ('op', 'sub', 'f64', R, D) for o in alts) and any(tshs.get(o) == ('op', 'sub', 'f64', R, D) for o in alts)
+    ctx.extra_sentinel = [(_cv(o)) for o in consts]
     # the 0 alternative is selected by `radius < distance`
     guard = [d for d, loc in e.branches if d[0] == 'op' and d[1] in ('lt', 'le') and d[3] == R and d[4] == D]
     ctx.report(clause_inner, MINMAX + ":min=f(radius-distance)|0", ok_alts and (len(alts) == 1 or bool(guard)),
